@@ -149,7 +149,9 @@ package aspect_elimination
 
 //@ func (*AspectEliminationHeuristic).Evaluate
 //@   property C12 C14 C01
+//@   fnparam .generator pure
 //@   requires [parameters] typeis(dmp.MethodParameters, AspectEliminationHeuristicParams)
+//@   returnhint [generator_seeded_with_the_requests_seed] generator == appfn(a.generator, params.RandomSeed)
 //@   requires [distinct_alternatives] distinctIds(dmp.ConsideredAlternatives)
 //@   returnhint [level_source_named_in_the_request] len(params.Function) > 0 && exists k int :: 0 <= k && k < len(a.functions) && satisfaction_levels.sourceName(a.functions[k]) == params.Function
 //@             && satisfaction_levels.madeBy(satisfactionLevels, a.functions[k]) && forall j int :: 0 <= j && j < k ==> satisfaction_levels.sourceName(a.functions[j]) != params.Function
